@@ -955,7 +955,7 @@ fn run(ctx: &mut Ctx) {
 fn finish(m: &Merged, tier: Tier) -> Finish {
     let kinds = m.prefix_count("kind:");
     let mut f = Finish {
-        rule: "a generic model of the serde data model (one variant per kind, hand-written Serialize that calls exactly the corresponding Serializer method, plus a leaf whose Serialize fails) is serialized with ValueSerializer; oracles: never a panic; equality with an independent image function written from the statement (integers exact, u128 > i128::MAX an error, options collapse, order kept, entries kept, variants tagged by name, failing Serialize anywhere an error, non-string keys an error or serde_json's image); equality with serde_json::to_value on JSON-representable models. Models: every boundary scalar alone, under each of 15 wrappers (including as a map key), doubly wrapped for the delicate ones, empty containers, random models to depth 5. Every case is non-trivial; distinct by model".into(),
+        rule: "a generic model of the serde data model (one variant per kind, hand-written Serialize that calls exactly the corresponding Serializer method, plus a leaf whose Serialize fails, skipped struct fields, the provided collect_seq / collect_map / collect_str methods with five kinds of size hint, an is_human_readable probe) is serialized with ValueSerializer; oracles: never a panic; equality with an independent image function written from the statement (integers exact, u128 > i128::MAX an error, options collapse, order kept, entries kept, variants tagged by name, failing Serialize anywhere an error, non-string keys an error or serde_json's image); equality with serde_json::to_value on JSON-representable models. Models: every boundary scalar alone, under each of 15 wrappers (including as a map key), doubly wrapped for the delicate ones, empty containers, random models to depth 5-10; real #[derive(Serialize)] types with skip_serializing_if / skip / rename / flatten / internally-, adjacently- and un-tagged enums and 36 library types (chrono, std::net, std::time, ranges, cells, collections, Result, CString ...) compared with serde_json. Floats are compared bit for bit (any NaN only for a widened f32 NaN). Every case is non-trivial; distinct by model".into(),
         exhaustive: false,
         exhaustive_part: "scalar x wrapper (x wrapper) products are complete".into(),
         ..Default::default()
